@@ -9,7 +9,9 @@ import (
 	"time"
 
 	gmqtt "github.com/DrmagicE/gmqtt"
+	sessredis "github.com/DrmagicE/gmqtt/persistence/session/redis"
 	"github.com/DrmagicE/gmqtt/pkg/packets"
+	"github.com/DrmagicE/gmqtt/zzredis"
 	"github.com/DrmagicE/gmqtt/zzrt"
 )
 
@@ -17,6 +19,13 @@ func ZZ_C20_Lifecycle() {
 	K := zzrt.Param("K")
 	srv, _ := zzLifecycleServer()
 	srv.config.MQTT.SessionExpiry = 100 * time.Second
+	// session store: memory, or the real redis session store over the zzredis stand-in
+	backend := zzrt.Choice(zzrt.Param("BACKENDS"))
+	zzrt.Observe("backend", backend)
+	if backend == 1 {
+		srv.sessionStore = sessredis.New(zzredis.NewPool(zzredis.NewStore()))
+		srv.clientService.sessionStore = srv.sessionStore
+	}
 	ids := []string{"c1", "c2"}
 	online := map[string]*client{}
 	var connected, disconnected, created uint64
